@@ -58,10 +58,31 @@ const (
 
 var layoutNames = []string{"in-place", "disjoint", "dst-longer", "adjacent-dst-after-src", "adjacent-dst-before-src"}
 
+// ivSlice returns 16 IV bytes in a slice that is tight, or has spare capacity behind it (the login code
+// passes a prefix of a larger decrypted buffer): a cipher must not keep its state in the caller's memory.
+func ivSlice(c *vm.Ctx, r *vm.Rand) []byte {
+	b := r.Bytes(16)
+	switch r.Intn(3) {
+	case 0:
+		c.Cover("iv.tight-slice")
+		return b
+	case 1:
+		c.Cover("iv.spare-capacity<48")
+		buf := make([]byte, 16, 16+r.Range(1, 31))
+		copy(buf, b)
+		return buf
+	}
+	c.Cover("iv.prefix-of-larger-buffer")
+	buf := r.Bytes(r.Range(64, 256))
+	copy(buf, b)
+	return buf[:16]
+}
+
 func checkSeq(c *vm.Ctx, r *vm.Rand, lens []int, decrypt bool) {
 	keyLen := []int{16, 24, 32}[r.Intn(3)]
 	key := r.Bytes(keyLen)
-	iv := r.Bytes(16)
+	iv := ivSlice(c, r)
+	ivCopy := append([]byte{}, iv...)
 	blk, _ := aes.NewCipher(key)
 	blk2, _ := aes.NewCipher(key)
 	var s *CFB8.CFB8
@@ -70,10 +91,10 @@ func checkSeq(c *vm.Ctx, r *vm.Rand, lens []int, decrypt bool) {
 	} else {
 		s = CFB8.NewCFB8Encrypt(blk, iv)
 	}
-	ref := &refCFB8{b: blk2, reg: append([]byte{}, iv...), dec: decrypt}
+	ref := &refCFB8{b: blk2, reg: append([]byte{}, ivCopy...), dec: decrypt}
 	var lays []string
 	wit := func() any {
-		return map[string]any{"key_len": keyLen, "decrypt": decrypt, "call_lengths": lens, "layouts": lays, "key": vm.Hex(key), "iv": vm.Hex(iv)}
+		return map[string]any{"key_len": keyLen, "decrypt": decrypt, "call_lengths": lens, "layouts": lays, "key": vm.Hex(key), "iv": vm.Hex(ivCopy), "iv_slice_capacity": cap(iv)}
 	}
 	total := 0
 	for ci, n := range lens {
@@ -164,7 +185,8 @@ func checkSeq(c *vm.Ctx, r *vm.Rand, lens []int, decrypt bool) {
 
 func checkInverse(c *vm.Ctx, r *vm.Rand) {
 	key := r.Bytes([]int{16, 24, 32}[r.Intn(3)])
-	iv := r.Bytes(16)
+	iv := ivSlice(c, r) // one slice for both directions, as bot/login.go and server/auth do with the shared secret
+	ivCopy := append([]byte{}, iv...)
 	msg := r.Bytes(r.Range(0, 4096))
 	b1, _ := aes.NewCipher(key)
 	b2, _ := aes.NewCipher(key)
@@ -172,7 +194,9 @@ func checkInverse(c *vm.Ctx, r *vm.Rand) {
 	dec := CFB8.NewCFB8Decrypt(b2, iv)
 	ct := make([]byte, len(msg))
 	pt := make([]byte, len(msg))
-	wit := func() any { return map[string]any{"key": vm.Hex(key), "iv": vm.Hex(iv), "message_len": len(msg)} }
+	wit := func() any {
+		return map[string]any{"key": vm.Hex(key), "iv": vm.Hex(ivCopy), "iv_slice_capacity": cap(iv), "message_len": len(msg)}
+	}
 	if c.Guard("inverse", wit, func() {
 		// different call divisions on the two sides
 		for off := 0; off < len(msg); {
@@ -189,6 +213,11 @@ func checkInverse(c *vm.Ctx, r *vm.Rand) {
 		return
 	}
 	c.Eval(vm.Hash64(key, iv, msg[:min(len(msg), 32)]), len(msg) > 0)
+	b3, _ := aes.NewCipher(key)
+	if want := (&refCFB8{b: b3, reg: append([]byte{}, ivCopy...)}).do(msg); !bytes.Equal(ct, want) {
+		c.Violation("inverse/encrypt-differs-from-reference", "with an encrypter and a decrypter built from the same IV slice, the ciphertext differs from AES-CFB8", wit())
+		return
+	}
 	if !bytes.Equal(pt, msg) {
 		c.Violation("inverse/decrypt-of-encrypt", "decrypting an encryption with the same key and IV did not return the message", wit())
 		return
@@ -212,7 +241,7 @@ func (d *duplexEnd) SetWriteDeadline(time.Time) error { return nil }
 
 // checkConn: both ends enable encryption (with/without compression); packets must arrive intact and in order.
 func checkConn(c *vm.Ctx, r *vm.Rand) {
-	secret := r.Bytes(16)
+	secret := ivSlice(c, r) // key and IV of all four streams, possibly a prefix of a larger buffer
 	threshold := []int{-1, 0, 64, 256}[r.Intn(4)]
 	n := r.Range(1, 60)
 	if r.Intn(10) == 0 {
